@@ -62,10 +62,15 @@ Theorem impl_decoder_agrees : forall il fixed width fonts ic w rows cb pb,
   read_data_compressed il fixed width cb = (read_data_uncompressed il fixed width pb, ROk).
 Proof. exact (fun il fixed width => impl_decoder_agrees_with_proof il fixed width bt_oracle). Qed.
 
-(* 512-character mode: the page bit written by encode_attr is the page decode_char gives the cell *)
-Theorem font_page_survives : forall ic il f0 f1 c,
-  fpage (attr (decode_char il true (ch c) (encode_attr [f0; f1] ic c))) = if fpage (attr c) =? f1 then 1 else 0.
-Proof. exact font_page_survives_proof. Qed.
+(* the picture itself: loading the compressed file ends with Ok and its i-th set_char puts, at column i mod w of line i / w,
+   the decoding of what the uncompressed writer stores for the i-th cell — every row lands on its own line *)
+Theorem compressed_load_positions : forall il fixed o fonts ic w rows cb,
+  same_width w rows -> (1 <= w)%nat -> compress_with o fonts ic rows = Ok cb ->
+  snd (read_data_compressed il fixed (Z.of_nat w) cb) = ROk /\
+  forall i c, nth_error (concat rows) i = Some c ->
+    nth_error (fst (read_data_compressed il fixed (Z.of_nat w) cb)) i =
+    Some (mkwr (Z.of_nat i mod Z.of_nat w)%Z (Z.of_nat i / Z.of_nat w)%Z (decode_char il fixed (ch c) (encode_attr fonts ic c))).
+Proof. exact compressed_load_positions_proof. Qed.
 
 (* count_length's u8 `run_count += 1` cannot overflow (compress_backtrack calls it with run_count < 64) *)
 Theorem count_length_no_overflow : forall m rc er cnt cs acc, cnt <= 254 ->
